@@ -227,6 +227,8 @@ static void p_run(uint64_t now, const uint8_t* b, int n)
 /* ---- frame construction (independent of the library) ---- */
 static int mk_fixed(uint8_t* f, int aL, int c, int addr) { int n = 0; f[n++] = 0x10; f[n++] = c; if (aL > 0) f[n++] = addr & 0xff; if (aL > 1) f[n++] = (addr >> 8) & 0xff; unsigned cs = 0; for (int i = 1; i < n; i++) cs += f[i]; f[n++] = cs & 0xff; f[n++] = 0x16; return n; }
 static int mk_var(uint8_t* f, int aL, int c, int addr, const uint8_t* d, int len) { int n = 0, l = 1 + aL + len; f[n++] = 0x68; f[n++] = l; f[n++] = l; f[n++] = 0x68; f[n++] = c; if (aL > 0) f[n++] = addr & 0xff; if (aL > 1) f[n++] = (addr >> 8) & 0xff; memcpy(f + n, d, len); n += len; unsigned cs = 0; for (int i = 4; i < n; i++) cs += f[i]; f[n++] = cs & 0xff; f[n++] = 0x16; return n; }
+/* data the application hands to the library for sending: also sizes at and above what fits one frame (1 + aL + len <= 255) */
+static int rnd_data_out(uint8_t* d, int aL) { int len = prng_below(6) == 0 ? prng_range(249, 254) : prng_below(6) ? prng_range(1, 24) : prng_range(1, 254 - aL); for (int i = 0; i < len; i++) d[i] = (uint8_t) prng_next(); return len; }
 static int rnd_data(uint8_t* d, int aL) { int len = prng_below(6) ? prng_range(1, 24) : prng_below(3) ? prng_range(1, 254 - aL) : 0; for (int i = 0; i < len; i++) d[i] = (uint8_t) prng_next(); return len; }
 /* corrupt a well-formed frame: one octet, a truncation, or the length pair */
 static int corrupt(uint8_t* f, int n)
@@ -248,7 +250,7 @@ static void episode_u(bool thorough)
     int fcb = 1, steps = thorough ? 260 : 80; uint8_t f[600], d[300], last[600]; int lastn = 0, lastvalid = 0;
     for (int i = 0; i < steps; i++) {
         int x = prng_below(100), valid = 0;
-        if (x < 12) { int n = rnd_data(d, aL); if (n) u_q(prng_below(3) ? 2 : 1, d, n); continue; }
+        if (x < 12) { int n = rnd_data_out(d, aL); if (n) u_q(prng_below(3) ? 2 : 1, d, n); continue; }
         now += prng_below(6) ? prng_range(0, 60) : prng_range(idle, idle * 2);
         int n = 0, a = (aL && prng_below(12) == 0) ? (addr + 1 + prng_below(5)) % (aL == 1 ? 255 : 65535) : addr;
         /* foreign addresses that are easily confused with broadcast or with the own address */
@@ -296,7 +298,7 @@ static void episode_b(bool thorough)
     int fcb = 1, steps = thorough ? 300 : 90; uint8_t f[600], d[300], last[600]; int lastn = 0;
     for (int i = 0; i < steps; i++) {
         int x = prng_below(100);
-        if (x < 10) { int n = rnd_data(d, aL); if (n) b_out(d, n); continue; }
+        if (x < 10) { int n = rnd_data_out(d, aL); if (n) b_out(d, n); continue; }
         if (x < 12) { b_accept(prng_below(4) != 0); continue; }
         if (x < 13) { b_test(); continue; }
         tick(tAck, tRep);
@@ -327,8 +329,8 @@ static void episode_p(bool thorough)
     int steps = thorough ? 400 : 120; uint8_t f[600], d[300];
     for (int i = 0; i < steps; i++) {
         int x = prng_below(100), a = addrs[prng_below(ns)];
-        if (x < 8) { int n = rnd_data(d, aL); if (n) p_send(prng_below(15) ? a : 99, d, n, 0); continue; }
-        if (x < 10) { int n = rnd_data(d, aL); if (n) p_send(prng_below(2) ? (aL == 1 ? 255 : 65535) : a, d, n, 1); continue; }
+        if (x < 8) { int n = rnd_data_out(d, aL); if (n) p_send(prng_below(15) ? a : 99, d, n, 0); continue; }
+        if (x < 10) { int n = rnd_data_out(d, aL); if (n) p_send(prng_below(2) ? (aL == 1 ? 255 : 65535) : a, d, n, 1); continue; }
         if (x < 16) { p_req(1, prng_below(15) ? a : 99); continue; }
         if (x < 26) { p_req(2, a); continue; }
         if (x < 27) { p_test(a); continue; }
